@@ -147,7 +147,7 @@ def on_disk(name, seed):
     import tempfile
     k = (name, seed)
     if k not in _PATHS:
-        d = tempfile.mkdtemp(prefix='verif_c05_', dir='/dev/shm' if os.path.isdir('/dev/shm') else None)
+        d = H.scratch('verif_c05_')
         atexit.register(shutil.rmtree, d, True)
         fb = file_bytes(name, seed)
         with open(os.path.join(d, 'f.tdms'), 'wb') as f:
